@@ -1338,6 +1338,14 @@ size_t ZSTD_CCtx_refThreadPool(ZSTD_CCtx* cctx, ZSTD_threadPool* pool)
 {
     RETURN_ERROR_IF(cctx->streamStage != zcss_init, stage_wrong,
                     "Can't ref a pool when ctx not in init stage.");
+#ifdef ZSTD_MULTITHREAD
+    if (cctx->mtctx != NULL && cctx->pool != pool) {
+        /* the worker context was built around the previous pool (or its own) : it is rebuilt with the new one.
+         * The init stage guarantees that no job is running. */
+        ZSTDMT_freeCCtx(cctx->mtctx);
+        cctx->mtctx = NULL;
+    }
+#endif
     cctx->pool = pool;
     return 0;
 }
